@@ -636,9 +636,9 @@ CORPUS = [
     B("c04-scalar-truncated-32bit", ["C04"], [(SP, "        self.xy_scalar = g.random_scalar(self.entropy_f)", "        self.xy_scalar = g.random_scalar(self.entropy_f) % (2**32)")],
       note="keys still agree; messages cover a tiny part of the subgroup"),
     B("c04-scalar-xor-password", ["C04"], [(SP, "        self.xy_scalar = g.random_scalar(self.entropy_f)", "        self.xy_scalar = g.random_scalar(self.entropy_f) ^ (self.pw_scalar & 0xff)")]),
-    B("c04-id-length-mixed-into-blinding", ["C04", "C03"], [(SP, "        pw_blinding = self.my_blinding().scalarmult(self.pw_scalar)",
+    B("c04-id-length-mixed-into-blinding", ["C04", "C03", "C01"], [(SP, "        pw_blinding = self.my_blinding().scalarmult(self.pw_scalar)",
                                                             "        pw_blinding = self.my_blinding().scalarmult(self.pw_scalar + len(getattr(self, 'idA', b'')))")],
-      note="both ends agree as long as they use the same idA; the message now depends on the identity"),
+      tests="killed", note="the message depends on the identity; unblinding does not compensate, so keys differ for non-empty idA"),
     B("c04-base-term-dropped", ["C04", "C01", "C03"], [(SP, "        message_elem = self.xy_elem.add(pw_blinding)", "        message_elem = pw_blinding")], tests="killed"),
     B("c04-blinding-uses-base", ["C04", "C03"], [(SP, "    def my_blinding(self): return self.params.S\n    def my_unblinding(self): return self.params.S",
                                                     "    def my_blinding(self): return self.params.group.Base\n    def my_unblinding(self): return self.params.group.Base")], tests="killed",
